@@ -204,7 +204,7 @@ def case_iter(n):
                     if (zi + li + mask + si) % 2 and n >= 3:
                         continue        # halve the n=3 product deterministically
                     yield {'n': n, 'S': S, 'S0': S0, 'R': [list(e) for e in R], 'L': Lc,
-                           'naming': ('int', 'str', 'tuple', 'mixed', 'revint')[(mask + si) % 5],
+                           'naming': ('int', 'str', 'tuple', 'mixed', 'revint', 'opaque')[(mask + si) % 6],
                            'ctype': ('list', 'set', 'tuple')[(mask + zi) % 3]}
 
 
@@ -286,7 +286,7 @@ def random_shard(st, shard, nshards, payload):
              for k in Lk]
         V = draw(hs.lists(hs.sampled_from(uni + ['out?']), unique=True))
         return {'n': n, 'S': S, 'S0': S0, 'R': R, 'L': draw(hs.sampled_from([None, L, L, L])),
-                'naming': draw(hs.sampled_from(['int', 'str', 'tuple', 'mixed', 'revint'])),
+                'naming': draw(hs.sampled_from(['int', 'str', 'tuple', 'mixed', 'revint', 'opaque'])),
                 'ctype': draw(hs.sampled_from(['list', 'set', 'tuple'])), 'V': V}
 
 
